@@ -649,6 +649,8 @@ func (idx *indexer) indexSince(txID uint64) error {
 
 			n := serializeIndexableEntry(b[:], txmd, e, kvmd)
 
+			idx.ensureKVTCapacity(indexableEntries + 1)
+
 			// the key may point into idx.tx, which is reused for the next tx of the bulk
 			idx._kvs[indexableEntries].K = cp(targetKey)
 			idx._kvs[indexableEntries].V = b[:n]
@@ -732,6 +734,8 @@ func (idx *indexer) indexSince(txID uint64) error {
 
 					n := serializeIndexableEntry(b[:], txmd, prevEntry, kvmd.Bytes())
 
+					idx.ensureKVTCapacity(indexableEntries + 1)
+
 					idx._kvs[indexableEntries].K = targetPrevKey
 					idx._kvs[indexableEntries].V = b[:n]
 					idx._kvs[indexableEntries].T = txID + uint64(i)
@@ -803,6 +807,16 @@ func (idx *indexer) indexSince(txID uint64) error {
 	idx.metricsLastIndexedTrx.Set(float64(txID + uint64(bulkSize-1)))
 
 	return nil
+}
+
+// ensureKVTCapacity grows the pre-allocated list of entries to be inserted.
+// With injective mappings a source entry may produce two entries (the mapped
+// one and the deletion of the previously mapped one), thus the initial capacity
+// (maxTxEntries * maxBulkSize) may be exceeded.
+func (idx *indexer) ensureKVTCapacity(n int) {
+	for len(idx._kvs) < n {
+		idx._kvs = append(idx._kvs, &tbtree.KVT{})
+	}
 }
 
 func estimateEntriesSize(kvs []*tbtree.KVT) int {
